@@ -379,6 +379,27 @@ def probe_history(desc, scaffold, rng):
             r4 = np.asarray(perform_tree_contraction(tree2b, tdict))
             if not dense_ok(r4, [int(a) for a in am2], ref3):
                 fails.append(("perform_tree_contraction:second-tree-on-the-same-dictionary-differs", "defining sum of the current tensors", "differs"))
+        # ---- a member tensor is stored with permuted axes (symbolic tensor and data alike, through the public
+        #      SymbolicTensor.transpose): same network value, nothing remembered from the contractions above may be used
+        cand = [t for t in stn.tensors.values() if t.tid != -1 and t.ndim >= 2]
+        if cand:
+            t = rng.choice(cand)
+            pm = list(range(t.ndim))
+            while pm == list(range(t.ndim)):
+                rng.shuffle(pm)
+            moved = np.transpose(np.asarray(net.data[t.dataref]), pm).copy()
+            t.transpose(pm)
+            t.dataref = "%s@moved%d" % (t.dataref, t.tid)      # the data entry may be shared with other tensors
+            net.data[t.dataref] = moved
+            if not net.is_consistent():
+                fails.append(("is_consistent:false-after-transposing-a-member-tensor-and-its-data-alike", True, False))
+            c, am = net.contract_einsum()
+            if not dense_ok(c, am, ref):
+                fails.append(("contract_einsum:after-member-transpose:not-the-defining-sum-of-the-current-network", "defining sum", "differs"))
+            if not has_idle_bond(stn) and not (isinstance(scaffold, int) and leaf_root_class(stn, scaffold)):
+                c, am, _ = net.contract_tree(copy.deepcopy(scaffold))
+                if not dense_ok(c, [int(x) for x in am], ref):
+                    fails.append(("contract_tree:after-member-transpose:not-the-defining-sum-of-the-current-network", "defining sum", "differs"))
         # ---- surgery between contractions on the same network object: no stale caches
         n_open = net.num_open_axes
         if n_open >= 2:
